@@ -30,6 +30,7 @@ type Eng struct {
 	consts  map[string]string // "constant fields": comp -> constant term (e.g. Mast.debug -> false)
 	globalInit map[string]string
 	extra   map[string]bool
+	ptrField map[int]bool // field ids whose Go type is a pointer
 }
 
 // GuardRule is an automatic obligation attached to stores into certain heap components.
@@ -159,6 +160,14 @@ func (e *Eng) prescan() {
 		e.reg.addComp(g.Comp, g.Sort, true)
 	}
 	e.reg.freeze()
+	e.ptrField = map[int]bool{}
+	for _, si := range e.reg.structOrd {
+		for _, fi := range si.Fields {
+			if _, isPtr := fi.Type.Underlying().(*types.Pointer); isPtr {
+				e.ptrField[fi.Fid] = true
+			}
+		}
+	}
 }
 
 func (e *Eng) noteT(t types.Type) {
@@ -181,7 +190,7 @@ func (e *Eng) noteIfacePayload(t types.Type) {
 	e.reg.tid(t)
 	s := e.reg.sortOf(t)
 	if e.reg.isStruct(t) {
-		e.reg.registerHeapStruct(t)
+		e.reg.addComp("Box."+s, "(Array Int "+s+")", false)
 		return
 	}
 	if s != "Int" {
